@@ -65,3 +65,17 @@ CLAIMED['C19'] = ('model_checking',
     'DESIGN.md#c19',
     'Trusted: TLC, the denotation/spelling in IfThen.tla, the concretisation table in harness/drivers/c19.py.',
     TECH)
+CLAIMED['C01'] = ('model_checking',
+    'TLC enumerates all strings up to length 3 over a 23-character adversarial alphabet (escape, braces, $ & # ^ _ ~ %, blank, tab, '
+    'LF, CR, NUL, letters, @, digit, non-ASCII and the ^^ images) x 6 category tables (default, @-letter, verbatim, LF-active, '
+    'seeded random permutations), all strings up to length 5 over a 10-character sub-alphabet, and strings with a mid-stream '
+    '\\catcode change, and checks the Tokenizer machine (iterchars with push-back, one action per branch of __iter__) against the '
+    'rule layer Lex (TeXbook ch. 8 with plasTeX\'s named deviations), CatOfClass, NoTwoPars, NeverStuck (no input makes it raise) '
+    'and termination.  Every enumerated behaviour (about 0.5 M) is replayed on the real plasTeX.Tokenizer comparing every token '
+    '(category, text) and the final state; seeded random strings up to 45 characters over a 43-character alphabet with random tables '
+    'and change schedules are tokenized by the real code and re-executed by TLC (TokenizerTrace.tla).',
+    'DESIGN.md#c01',
+    'Trusted: TLC, the transcription of TeX\'s lexical rules into Lex, the projection. Category tables in the specification are read '
+    'off the real Context after the same catcode() calls. NF-LEX exclusions: hex ^^ab; category 5 only for LF; named deviations '
+    'D1 (adjacent paragraph tokens merged), D2 (escape+EOL gives a space), D6 (ignored characters dropped also inside names).',
+    TECH)
